@@ -47,7 +47,7 @@ CHECKS = {
     "C11": dict(category="exploration",
         technique="trace validation against TLA+ spec Session.tla (a run is a complete session: init, sends, EOS, one packet per picture without error flags, drained, teardown) of encodes executed in the ASan+UBSan build under a wall-clock timeout, over configurations accepted per ParamDomain.tla x contents x sizes",
         text="Memory safety and undefined behaviour are observed by the sanitizer run-time, termination by the timeout, completion/error packets by Session.tla on every API event; the space (configuration x content x size) is sampled.",
-        note="UBSan without alignment/shift groups; 2-pass not exercised; large pictures only in thorough; each sanitizer finding of the unchanged tree is listed by file and report class in known_findings.json.", design="4 (C11)"),
+        note="UBSan without alignment/shift groups; two-pass encodes included; large pictures only in thorough; each sanitizer finding of the unchanged tree is listed by file and report class in known_findings.json.", design="4 (C11)"),
     "C12": dict(category="model_checking",
         technique="TLA+ spec ParamDomain.tla (documented domain of the configuration structure: ranges, mode-dependent applicability, coupled constraints, values the documentation sources dispute); TLC enumerates the case space (boundary sweeps of every documented field + complete products of the coupled groups), each case is executed on the real svt_av1_enc_set_parameter, and TLC judges every recorded row (stored configuration, return code) with Verdict",
         text="Finite case space of the model enumerated completely and every case executed: ~5100 configurations in quick (thorough adds 20000 seeded random 2-3 field combinations and the ASan build); accept/reject verdicts are decided by the specification from the configuration as stored in the structure.",
@@ -74,7 +74,7 @@ CHECKS = {
         note="Shared mutable state is enumerated on the real library with a ThreadSanitizer build (two undisciplined instances: every process-global variable in a reported race must be a listed finding, by name or as a dispatch pointer); the populations the model shows to interfere are recorded findings and the corresponding real groups crash as predicted.", design="4 (C17), 11"),
     "C18": dict(category="exploration",
         technique="trace validation against Bitstream.tla (QOK) of base_q_idx in every frame header read by the independent parser; expectations from the configuration only",
-        text="Bounds [Q(min),Q(max)] for rate control, (1,63) for CQP, exact value for fixed-qindex-offset mode.", note="2-pass not exercised; uniform layer offsets.", design="4 (C18)"),
+        text="Bounds [Q(min),Q(max)] for rate control, (1,63) for CQP, exact value for fixed-qindex-offset mode.", note="two-pass VBR included; uniform layer offsets.", design="4 (C18)"),
     "C19": dict(category="exploration",
         technique="trace validation against Bitstream.tla (intra placement by display position, DPB reset at shown key frames) + Observe.tla (cut-and-decode with libaom from every shown key frame equals the full decode)",
         text="Placement and random-access are judged on every stream of a period x refresh-type x levels sweep, incl. streams longer than the picture pools.", note="Sampled periods and lengths.", design="4 (C19)"),
